@@ -40,6 +40,22 @@ def write_replay(prop: str, kind: str, payload: dict) -> Path:
     return p
 
 
+class WatchdogTimeout(Exception):
+    """the check ran longer than its budget: some generated case makes the implementation hang or loop"""
+
+
+def arm_watchdog(tier: str, fired: list):
+    import signal
+    budget = float(os.environ.get("VERIF_BUDGET_S", "2400" if tier == "quick" else "14400"))
+
+    def on_alarm(_sig, _frm):
+        fired.append(time.time())
+        raise WatchdogTimeout(f"no result after {budget:.0f} s")
+    signal.signal(signal.SIGALRM, on_alarm)
+    signal.setitimer(signal.ITIMER_REAL, budget, 60.0)      # then every minute until the run ends
+    return budget
+
+
 def main() -> int:
     ap = argparse.ArgumentParser()
     ap.add_argument("prop")
@@ -115,11 +131,22 @@ def main() -> int:
             data = json.loads(Path(args.replay).read_text())
             plugin.replay(ctx, data)
         else:
+            fired: list = []
+            budget = arm_watchdog(args.tier, fired)
             try:
                 plugin.run(ctx)
+            except WatchdogTimeout:
+                pass
             except Exception:
                 broken.append({"what": "harness crashed while running the implementation",
                                "log": traceback.format_exc()})
+            finally:
+                import signal
+                signal.setitimer(signal.ITIMER_REAL, 0)
+            if fired:
+                broken.append({"what": f"the check did not finish within its budget of {budget:.0f} s: the implementation "
+                                       "hangs or loops on a generated case (the run was interrupted "
+                                       f"{len(fired)} time(s))"})
 
         # ---- 4. verdict
         rc = 0
